@@ -239,7 +239,11 @@ def gen_container_case(r):
         else:
             shapes[nm] = (int(r.integers(2, 7)) if r.random() < 0.93 else int(r.integers(7, 30)),)
     entries = [(i, {nm: gen_value(r, sh, np_scalars) for nm, sh in shapes.items()}) for i in ids]
-    return {"id_class": id_cls, "names_class": name_cls, "shapes": shapes, "np_scalars": np_scalars}, entries
+    mixed_key_order = len(shapes) >= 2 and len(ids) >= 2 and r.random() < 0.35
+    if mixed_key_order:
+        # the same parameters written in another key order for some individuals (a dict is a dict: accepted, and the same individual)
+        entries = [(i, d if j == 0 or r.random() < 0.5 else {k_: d[k_] for k_ in r.permutation(list(d))}) for j, (i, d) in enumerate(entries)]
+    return {"id_class": id_cls, "names_class": name_cls, "shapes": shapes, "np_scalars": np_scalars, "mixed_key_order": bool(mixed_key_order)}, entries
 
 
 # ---------------------------------------------------------------------------------------------------------------
@@ -380,6 +384,23 @@ def run_shard(spec, ctx):
             return not found
         for key, what in found:
             ctx.violation(key, what, dict(case, conversion=label))
+        if out is not None and not found and len(getattr(out, "_indices", [])) >= 1:
+            # the converted container obeys the same rules as one filled by additions: an identifier it already holds is refused
+            dup_id = out._indices[int(len(out._indices) // 2)]
+            try:
+                before_ = ipref.snap(out)
+                out.add_individual_parameters(dup_id, dict(out[dup_id]))
+                ctx.violation("ip.add/accepted-duplicate-id", f"[{label}] the container obtained through {stage} accepted an identifier it already holds ({ipref._r(dup_id)})",
+                              dict(case, conversion=label, via=f"container from {stage}"))
+                return False
+            except LeaspyIndividualParamsInputError:
+                ctx.count("rejections_judged")
+                ctx.count(f"rejected_duplicate-id_on_container_from_{stage}")
+            except PostBroken as e:
+                ctx.violation("ip.add/accepted-duplicate-id", f"[{label}] {e.problems[0][1]}", dict(case, conversion=label, via=f"container from {stage}"))
+                return False
+            except Exception:
+                ctx.count("rejections_with_another_exception_type")
         return not found
 
     # ---- rejection monitor ---------------------------------------------------------------------------------
